@@ -366,7 +366,7 @@ def instances(tier, seed):
                             context_free_first=False))
     n = 55 if q else 650
     for k, (text, vars_) in enumerate(systems(seed if not q else 0, n)):
-        out.append(Instance('simplify/gen%03d/%s' % (k, text.replace('\n', ';').replace(' ', '')[:60]), equivalence(text, do_simplify(vars_), vars_, 'simplify'), qtimeout=30000))
+        out.append(Instance('simplify/gen%03d/%s' % (k, text.replace('\n', ';').replace(' ', '')[:60]), equivalence(text, do_simplify(vars_), vars_, 'simplify'), qtimeout=120000))
     for text, vars_ in LINEAR_SOLVE:
         out.append(Instance('solve/%s' % text.replace('\n', ';').replace(' ', ''), equivalence(text, do_solve, vars_, 'solve'), qtimeout=30000))
     for kw, text, vars_ in MATRICES:
